@@ -119,7 +119,13 @@ def replay(modname, case):
         hs = []
         exc = None
         for _ in range(2):
-            exe, out, exc = sched.execute(body, case["schedule"], case["focus"], case.get("granularity", "entry"))
+            try:
+                exe, out, exc = sched.execute(body, case["schedule"], case["focus"], case.get("granularity", "entry"))
+            except sched.ReplayDivergence as e:
+                # the recorded schedule does not exist on this tree (e.g. the pool invocation it was recorded in is gone):
+                # nothing to replay, hence nothing reproduced
+                print(f"replay: recorded schedule is not realisable on this tree ({e})")
+                return False, True, None
             hs.append(_h(out, exc))
         return hs[0] != ref, hs[0] == hs[1], exc
     finally:
